@@ -457,7 +457,9 @@ class ExitStack:
                     exc_type = exc_val = tb = None
             except BaseException as exc:  # noqa: B036
                 # simulate the stack of exceptions by setting the context
-                self._stitch_context(exc, exc_val, unwind_context)
+                # a callback re-raising the exception it received adds no new context
+                if exc is not exc_val:
+                    self._stitch_context(exc, exc_val, unwind_context)
                 reraise_exc = True
                 exc_type, exc_val, tb = type(exc), exc, exc.__traceback__
         if reraise_exc and exc_val is not None:
